@@ -18,6 +18,7 @@ type Case struct {
 	Dev    string `json:"dev"`    // empty | tables | view | trigger | memory
 	Files  []int  `json:"files"`  // statements per migration file (directory commands) / statements of the SQL schema
 	FailAt int    `json:"fail_at"` // global index of the failing statement (-1 = none)
+	Style  int    `json:"style"`   // 0 tables+indexes; 1 views first (view-only prefixes / end states); 2 tables, views on them and triggers
 }
 
 func stmtsFor(c Case) [][]string {
@@ -29,6 +30,19 @@ func stmtsFor(c Case) [][]string {
 			s := fmt.Sprintf("CREATE TABLE t%d_%d (id integer PRIMARY KEY AUTOINCREMENT, v text)", f, j)
 			if j%2 == 1 {
 				s = fmt.Sprintf("CREATE INDEX i%d_%d ON t%d_%d (v)", f, j, f, j-1)
+			}
+			switch c.Style {
+			case 1: // views only in the first file, tables afterwards
+				if f == 0 {
+					s = fmt.Sprintf("CREATE VIEW v%d_%d AS SELECT %d AS one", f, j, k)
+				}
+			case 2:
+				switch j % 3 {
+				case 1:
+					s = fmt.Sprintf("CREATE VIEW v%d_%d AS SELECT id, v FROM t%d_%d", f, j, f, j-1)
+				case 2:
+					s = fmt.Sprintf("CREATE TRIGGER g%d_%d AFTER INSERT ON t%d_%d BEGIN SELECT 1; END", f, j, f, j-2)
+				}
 			}
 			if k == c.FailAt {
 				s = fmt.Sprintf("CREATE INDEX broken_%d ON no_such_table_%d (v)", k, k)
